@@ -170,8 +170,18 @@ class GateOptimizeBlock(Case):
             logrep = Marker('log%d' % k)
             accept[sb.block_name] = H.bool('accept%d' % k)
             sols.append((sb, oc, 0.1, asm, 'tag', 10, 5, [], logrep))
+        # the list of sub blocks as get_subblocks gives it: the instruction the block is split at closes a sub block and opens the
+        # next one.  mem[k]: sub block k accesses memory; msize[k]: the instruction after sub block k is MSIZE
+        mem = [H.choice('mem%d' % k, [False, True]) for k in range(self.K)]
+        msize = [H.choice('msize%d' % k, [False, True]) for k in range(self.K - 1)]
+        splits = ["MSIZE" if m else "JUMPDEST" for m in msize]
+        sub_block_list = []
+        for k in range(self.K):
+            inner = ["PUSH1 0x20", "MLOAD", "POP"] if mem[k] else ["CALLER", "POP"]
+            sub_block_list.append(([splits[k - 1]] if k > 0 else []) + inner + ([splits[k]] if k < self.K - 1 else []))
+        observed = [mem[k] and any(msize[k:]) for k in range(self.K)]
         cfg = dict(sfs_raises=H.choice('sfs_raises', [False, True]), sfs_dict={"B_0": Marker('sfs0'), "B_1": Marker('sfs1')},
-                   sub_block_list=Marker('sub_block_list'), solutions=sols, accept=accept)
+                   sub_block_list=sub_block_list, solutions=sols, accept=accept)
         H.it.cfg = cfg
         out = H.call(gasol_asm.optimize_asm_block_asm_format, block, params)
         tr = H.it.trace
@@ -202,6 +212,11 @@ class GateOptimizeBlock(Case):
             rec = recorded.get(nm)
             if not has_model:
                 H.check('no-model=>no-replacement[%d]' % k, rec is None and nm not in log_dicts)
+                continue
+            if observed[k]:
+                # C01 (MSIZE): a later MSIZE sees every memory access of this sub block, also the dead reads a
+                # specification drops, so no candidate may replace it whatever the acceptance test says
+                H.check('memory-access-before-MSIZE=>no-replacement[%d]' % k, rec is None and nm not in log_dicts)
                 continue
             c = calls.get(nm)
             H.check('acceptance-test-called-on-(sub_block,candidate,params.criteria)[%d]' % k,
@@ -320,6 +335,46 @@ class GateCompare(Case):
         H.check('name-restored', new.block_name == 'new')
         ver = [t for t in tr if t[0] == 'verify']
         H.check('checker-called-on-(old,new)-specs', len(ver) == 1 and ver[0][1].tag == 'sfs-of-old' and ver[0][2].tag == 'sfs-of-new')
+
+
+# =====================================================================================================================
+class GateCompareSameBlock(Case):
+    """C05 'equal for a block compared with itself', at the level of the object: the tool passes the SAME AsmBlock twice
+    (a rejected block is replaced by the original and compared again for the blocks CSV).  The old block must then be
+    analysed under its own name, not under the temporary alreadyOptimized_ name of the new one (finding F53)"""
+    prop = 'C05'
+    tier = 'P'
+    name = "compare_asm_block_asm_format(same object)"
+    functions = (gasol_asm.compare_asm_block_asm_format,)
+
+    def make_stubs(self):
+        def st_sfs(it, block, params):
+            it.trace.append(('sfs', block, block.block_name))
+            return {"syrup_contract": Marker('sfs-under-' + block.block_name)}, [["OP", "LOG1"], ["LOG1", "OP"]]
+
+        def st_verify(it, old, new):
+            it.trace.append(('verify', old, new))
+            # the checker pairs the specifications by name: new ones are looked up as alreadyOptimized_<old name>
+            return ("alreadyOptimized_" + old.tag[len('sfs-under-'):] == new.tag[len('sfs-under-'):]), "Different number of subblocks"
+        return {'gasol_asm.compute_original_sfs_with_simplifications': st_sfs,
+                'verification.sfs_verify.verify_block_from_list_of_sfs': st_verify,
+                'gasol_asm.verify_block_from_list_of_sfs': st_verify}
+
+    def run(self, H):
+        b = Blk('b')
+        b.instructions = [_Item(disasm="ADD", value=None), _Item(disasm="ASSIGNIMMUTABLE", value="1")]
+        tok = EqTok(True)
+        b.instructions_initial_bytecode = lambda: tok
+        b.instructions_final_bytecode = lambda: tok
+        out = H.call(gasol_asm.compare_asm_block_asm_format, b, b, types.SimpleNamespace())
+        H.check('raises-nothing', out.ok, info=repr(out.exc))
+        H.check('name-restored', b.block_name == 'b')
+        if not out.ok:
+            return
+        sf = [t[2] for t in H.it.trace if t[0] == 'sfs']
+        H.check('old-block-analysed-under-its-own-name', sorted(sf) == ["alreadyOptimized_b", "b"], info=repr(sf))
+        r = out.value
+        H.check('a-block-compared-with-itself=>equal', isinstance(r, tuple) and len(r) == 2 and _b(r[0]) is True, info=repr(r))
 
 
 # =====================================================================================================================
@@ -635,5 +690,5 @@ class GateRebuildFromLog(Case):
 
 
 def cases(tier='quick'):
-    return [GateOptimizeBlock(), GateCompare(), GateContract(), GateContractFaults(), GateIsolated(), GateIsolatedFaults(),
+    return [GateOptimizeBlock(), GateCompare(), GateCompareSameBlock(), GateContract(), GateContractFaults(), GateIsolated(), GateIsolatedFaults(),
             GateFromLog(), GateRebuildFromLog()], {}
